@@ -30,6 +30,28 @@ FOCUS = {
 "C19": "the memb or mb flavor's rcu_read_lock/rcu_read_unlock being interrupted by a handler that itself takes the read lock (nesting count, rcu_read_ongoing, the value stored back), not the bp registration path",
 "C20": "cmpxchg/xchg return values, 8-byte and 1-byte operands, and/or/inc, or the full-barrier guarantee of xchg/cmpxchg/add_return in include/urcu/uatomic/x86.h; or include/urcu/uatomic/generic.h helpers used by the default build",
 }
+FOCUS2 = {
+"C01": "the memb/mb updater-side barrier machinery (smp_mb_master, sys_membarrier detection/initialisation, the has_sys_membarrier flag shared with the reader-side slave barrier), or the outermost-vs-nested decision in rcu_read_unlock",
+"C02": "the wait-node state machine in src/urcu-wait.h (WAITING / WAKEUP / RUNNING / TEARDOWN, urcu_adaptative_busy_wait, urcu_adaptative_wake_up, urcu_wake_all_waiters), or src/compat_futex.c",
+"C03": "helper creation and selection races (get_default_call_rcu_data, create_call_rcu_data, cpu affinity of per-CPU helpers), the helper main loop's flag handling (RT, STOP, STOPPED), or the enqueue/wake path of call_rcu itself",
+"C04": "the completion object's life cycle (urcu_ref refcount, free_completion, _rcu_barrier_complete, the work items carrying the marker), or rcu_barrier being called while helpers are being created",
+"C05": "_cds_lfht_gc_bucket (helping unlink) and the insertion cmpxchg in _cds_lfht_add, or bucket lookup / bit-reversed ordering of nodes within a bucket chain",
+"C06": "add_unique's duplicate search (the d_iter / cds_lfht_next_duplicate walk inside _cds_lfht_add) or cds_lfht_next_duplicate itself under concurrent adds/removes of equal-hash nodes",
+"C07": "cds_lfht_destroy on a table without AUTO_RESIZE, the three bucket allocators' free paths (order / chunk / mmap), or custom cds_lfht_alloc allocators",
+"C08": "cds_lfht_count_nodes and the split-counter accounting (CDS_LFHT_ACCOUNTING), cds_lfht_new's handling of flags / allocator selection, or alloc_bucket_table for order 0 vs higher orders",
+"C09": "explicit cds_lfht_resize (resize_target_update_count, the resize_mutex critical section, grow vs shrink dispatch), fini_table's per-order loop, or src/workqueue.c",
+"C10": "__cds_wfcq_dequeue_with_state and its state flags (CDS_WFCQ_STATE_LAST), the interplay of dequeue with a concurrent enqueue on a one-element queue, or the legacy cds_wfq",
+"C11": "wfstack pop / pop_with_state (cmpxchg path, CDS_WFS_STATE_LAST), or cds_wfs_pop_all followed by blocking iteration while a push is in flight",
+"C12": "the enqueue path (node initialisation, linking, tail advance) or cds_lfq_init_rcu / cds_lfq_node_init_rcu",
+"C13": "the reclaimer thread's sleep/wake protocol (wake_up_defer, wait_defer, the defer futex), rcu_defer_barrier / rcu_defer_barrier_thread, or the full-queue path of _defer_rcu",
+"C14": "start_poll_synchronize_rcu when a worker callback is already queued / in flight, or urcu_poll_worker_cb's re-queue decision",
+"C15": "the bp registry arena (expand_arena, arena_alloc, find_chunk, cleanup_thread) - slot reuse and reader-state address stability when the registry grows",
+"C16": "call_rcu_after_fork_child's rebuilding of helpers and hand-over of inherited queues, or the work queue's pause/resume/re-creation across fork (urcu_workqueue_pause_worker, urcu_workqueue_resume_worker, urcu_workqueue_create_worker)",
+"C17": "rculfqueue dequeue or lfstack pop (lock-free progress), or hash-table lookup/traversal (wait-free: must never loop on another thread's progress)",
+"C18": "the pointer-publication primitives of include/urcu/static/pointer.h as used by the lists (rcu_dereference, rcu_assign_pointer / rcu_set_pointer, rcu_xchg_pointer, rcu_cmpxchg_pointer), or the hlist traversal macros",
+"C19": "the bp flavor's rcu_read_lock / rcu_read_unlock of an already registered thread interrupted by a handler, bp synchronize_rcu's signal masking, or the mb flavor",
+"C20": "uatomic_read / uatomic_set and the CMM_LOAD_SHARED / CMM_STORE_SHARED helpers, uatomic_add / uatomic_sub / uatomic_and / uatomic_or at 1 and 2 bytes, or cmpxchg's return value at 1/2 bytes in include/urcu/uatomic/x86.h",
+}
 T = '''# Task: seed a subtle property-breaking change into userspace-rcu (liburcu)
 
 You are helping to evaluate a verification tool. Your job is to play the role of a
@@ -117,7 +139,8 @@ describe the best candidate and what is missing; do not fake a demonstration.
 
 def main():
     rd = sys.argv[1]
-    use_focus = "--focus" in sys.argv
+    use_focus = "--focus" in sys.argv or "--focus2" in sys.argv
+    table = FOCUS2 if "--focus2" in sys.argv else FOCUS
     props = {json.loads(l)["id"]: json.loads(l) for l in open(os.path.join(V, "properties.jsonl"))}
     prev = {}
     for m in sorted(glob.glob(os.path.join(V, "seeded", "C*-*", "meta.json"))):
@@ -132,8 +155,8 @@ def main():
             avoid = ("Earlier rounds already produced the following changes for this property. Produce something **different in mechanism "
                      "and site** (a different function/file and a different clause of the property):\n" + "\n".join("- " + a + "..." for a in av))
         focus = ""
-        if use_focus and pid in FOCUS:
-            focus = "**Focus for this round**: aim your change at " + FOCUS[pid] + "."
+        if use_focus and pid in table:
+            focus = "**Focus for this round**: aim your change at " + table[pid] + "."
         open(os.path.join(rd, "TASK-%s.md" % pid), "w").write(T.format(
             wt=wt, id=pid, title=p["title"], statement=p["statement"], qtext=p["quantifier"]["text"],
             anchors=json.dumps(p["anchors"], indent=1), avoid=avoid, focus=focus))
